@@ -147,7 +147,9 @@ fn gen_case(rng: &mut Rng, mode: Mode) -> ReaderCase {
     // end of stream: clean EOF, truncation is the same thing here; terminal error at any offset
     if rng.chance(2, 5) {
         let k = if rng.chance(1, 4) { len } else { rng.below(len + 1) };
-        src.fail_at = Some((k, *rng.pick(&ERR_KINDS)));
+        let (kind, os) = crate::source::fault_error(rng.below(14));
+        src.fail_at = Some((k, kind));
+        src.fail_os = os;
     }
     if mode == Mode::C14 {
         // hostile sources: lies and panics sprinkled into the plan
@@ -990,6 +992,7 @@ impl Prop for ReaderProp {
         for plan in [SourceCfg::one_shot(), SourceCfg::bytewise()] {
             let mut p = plan;
             p.fail_at = case.src.fail_at;
+            p.fail_os = case.src.fail_os;
             if p.rank() < case.src.rank() {
                 let mut c = case.clone();
                 c.src = p;
@@ -999,6 +1002,7 @@ impl Prop for ReaderProp {
         if case.src.fail_at.is_some() {
             let mut c = case.clone();
             c.src.fail_at = None;
+            c.src.fail_os = None;
             out.push(c);
         }
         // drop Interrupted / hostile steps
